@@ -25,6 +25,7 @@ mod coqfmt;
 mod export;
 mod progen;
 mod mpcgen;
+mod exec3;
 mod gen;
 mod out;
 mod rng;
